@@ -372,6 +372,14 @@ def case_chains(B, cfg):
                len(hit) == 1, repr([T.show(a) for a in args]))
 
 
+def case_init_repro(B, cfg):
+    """initial points are reproducible from the seed -- whatever state the
+    process-wide generator is in, for seed 0 like for any other seed (the
+    prior draws from the global generator, as the pints priors do)"""
+    from . import c16
+    return c16.case_repro(B, cfg)
+
+
 def case_opt_table(B, cfg):
     """OptimisationController.run over a stub of pints.OptimisationController
     that returns fresh symbolic estimates and a symbolic score per run (one
@@ -493,6 +501,17 @@ def jobs(tier):
             out.append(('opt_table', 'case_opt_table', dict(
                 units=c, n_ids=n_ids, id_labels=labels, n_runs=3,
                 broken=broken), F))
+    for seed in (3, 0, 1):
+        for e in (dict(entry='init_logposterior'),
+                  dict(entry='init_hierarchical',
+                       units=[U_('gaussian'), U_('lognormal_nc')]),
+                  dict(entry='init_hierarchical',
+                       units=[U_('pooled'), U_('hetero')]),
+                  dict(entry='init_filter',
+                       units=[U_('gaussian'), U_('pooled')])):
+            out.append(('init_repro', 'case_init_repro', dict(
+                e, seed_value=seed, light=True, generator_ok=False,
+                random=True), F))
     comps = c02.compositions(2, [2])
     if not q:
         comps = c02.compositions(3, [2, 3])[::3]
@@ -547,7 +566,9 @@ BOUNDS = dict(
     quick='hierarchical posteriors over all compositions of <= 2 sub-models '
           '(total dimension 2, 2 individuals) incl. bare models, a quarter of '
           'the covariate variants, fixed-parameter samples; filter posteriors '
-          'on every second composition; 2 initial points; chains with 2 '
+          'on every second composition; 2 initial points; reproducibility '
+          'from the seed (3, 0, 1) under different global generator states '
+          'for the three posterior classes; chains with 2 '
           'chains x 2 draws for an individual posterior and a quarter of the '
           'hierarchical compositions, plus 3 posteriors with unsorted custom '
           'individual labels and one with 11 default-labelled individuals',
